@@ -114,6 +114,9 @@ func runE1(rep *common.Reporter, cfgs []*xplore.Config) (*e1Totals, bool) {
 			"states": m.States, "state_transitions": m.StateTransitions, "state_depth": m.StateDepthDone, "closed": m.Closed, "caps_hit": m.CapsHit, "known_hits": m.KnownHits})
 		fmt.Printf("%s %s: histories=%d (depth %d) states=%d transitions=%d closed=%v violations=%d known=%v caps=%v\n", rep.Property, c.Name, m.Histories, m.HistDepthDone, m.States, m.StateTransitions, m.Closed, len(m.Violations), m.KnownHits, m.CapsHit)
 	}
+	if t.States == 0 {
+		t.States = t.Traces // no de-duplicated pass ran: every executed history end state counts once
+	}
 	return t, true
 }
 
